@@ -204,3 +204,9 @@ Theorem C19_literal_ops_refuted : exists t r,
   r_rest r = [(s_or, RAEq [100; 101; 114] (ROConst [98]))].
 Proof. exact literal_ops_refuted. Qed.
 Print Assumptions C19_literal_ops_refuted.
+
+(* RegexExpr.filter before fixes/C19-11 (`if not value: return False`): an empty tag value failed a pattern that matches it *)
+Theorem C19_regex_empty_value_refuted : exists v p e,
+  meaning_atom (ARegex v p) e /\ eval_regex_emptyfalse v p e = false /\ eval (single (ARegex v p)) e = true.
+Proof. exact regex_empty_value_refuted. Qed.
+Print Assumptions C19_regex_empty_value_refuted.
